@@ -234,7 +234,7 @@ func (p *HTTPProxy) ServeHTTP(w http.ResponseWriter, r *http.Request) {
 
 	var h http.Handler
 	switch {
-	case upgrade == "websocket" || upgrade == "Websocket":
+	case strings.EqualFold(upgrade, "websocket"): // the token is case-insensitive
 		r.URL = targetURL
 		// connect with the configured limits like the transports do
 		dialer := &net.Dialer{Timeout: p.Config.DialTimeout, KeepAlive: p.Config.KeepAliveTimeout}
